@@ -117,7 +117,7 @@ def gen(rng, tier):
     _seen_models.clear()
     quick = tier == "quick"
     npair = 6 if quick else 14
-    nrand = 12 if quick else 150
+    nrand = 30 if quick else 150
     # JC: every pair of the grid (no parameters)
     for s in TS:
         for t in TS:
